@@ -34,12 +34,11 @@ package bitstr
 //@   requires validBS(a) && validBS(b)
 //@   ensures r == lexEnc(a, b)
 //@   assigns nothing
-//@   assertret forall j int :: 0 <= j && j < 8 * fdB(a, b) ==> bbit(a, j) == bbit(b, j)
-//@   assertret forall j int :: 0 <= j && j < 8 * fdB(a[:len(a)-1], b[:len(b)-1]) ==> bbit(a, j) == bbit(b, j)
-//@   use fdEnc_unique(a, b, fdFromByte(a, b, fdB(a, b), len(a) - 1))
-//@   use byte_lt_bit(a[fdB(a, b)], b[fdB(a, b)])
-//@   use fdEnc_unique(a, b, fdFromByte(a, b, fdB(a[:len(a)-1], b[:len(b)-1]), min2(len(a) - 1, len(b) - 1)))
-//@   use byte_lt_bit(a[fdB(a[:len(a)-1], b[:len(b)-1])], b[fdB(a[:len(a)-1], b[:len(b)-1])])
+//@   use cmp_case_payload(a, b, fdB(a, b))
+//@   use cmp_case_payload(a, b, fdB(a[:len(a)-1], b[:len(b)-1]))
+//@   use cmp_case_prefix(a, b)
+//@   use cmp_case_prefix(b, a)
+//@   use mask_order(a[len(a)-1], b[len(b)-1])
 
 //@ func cmpBytes returns (r)
 //@   requires len(a) <= len(b)
